@@ -1248,6 +1248,22 @@ pub fn gen_invocation(
                 format!("{}/../../{}/{}", first, cwd_name, project.input)
             }
         }
+        // down into an existing sub-directory and straight back up: a trailing `..`
+        7 if allow_climb && !project.input_is_file => {
+            let base = normalize(&project.input);
+            let prefix = format!("{}/", base);
+            let sub = project.sources.iter().find_map(|s| {
+                let rest = s.path.strip_prefix(&prefix)?;
+                let (first, _) = rest.split_once('/')?;
+                Some(first.to_owned())
+            });
+            match sub {
+                Some(sub) if !base.is_empty() && !base.starts_with("..") && project.input == base => {
+                    format!("{}/{}/..", base, sub)
+                }
+                _ => project.input.clone(),
+            }
+        }
         _ => project.input.clone(),
     };
     Invocation {
